@@ -1,5 +1,5 @@
 """Property -> rules table."""
-import lattice_rules, agg_rules, lib_rules, byods_rules, gen_driver
+import lattice_rules, agg_rules, lib_rules, byods_rules, gen_driver, witness_rules
 
 
 def run_C16(ctx, rep):
@@ -73,11 +73,30 @@ def run_C14(ctx, rep):
 
 
 def run_C04(ctx, rep):
-    gen_driver.run_gen(ctx, rep, ['G9', 'G1G3', 'UI'], floors={'G9': 20})
+    gen_driver.run_gen(ctx, rep, ['G9', 'G12', 'G1G3', 'UI'], floors={'G9': 20, 'G12': 40})
     agg_rules.check_L11(ctx, rep)
 
 
+def run_C15(ctx, rep):
+    n = witness_rules.run_witnesses(ctx, rep, ctx.tier)
+    rep.floor('W', 60 if ctx.tier == 'quick' else 300, 'compile witnesses')
+    return {'cov': {'exhaustive': True, 'witness_tier': ctx.tier}}
+
+
 PROPS = {
+    'C15': {
+        'run': run_C15, 'corpus': False, 'facts': False, 'level': 'other',
+        'explanation': 'compile-fail witnesses decided by the stable Rust compiler (nothing is run): for each ill-formedness kind of the property '
+                       '(undeclared relation in head / body / agg / negation, wrong arity in the same four positions, aggregation or negation '
+                       'inside the own recursive stratum - directly, through a 2-cycle and a 3-cycle in EVERY order of the rules, rebinding by '
+                       'let / for / agg pattern / if-let, self- mutually- and head-recursive macros, include_source! inside ascent_source!, #[ds] on '
+                       'a lattice, two #[ds], unknown inner attribute, attribute on a rule / macro, inter_rule_parallelism in a serial macro) x '
+                       'position x the four macros: the crate fails to compile, a diagnostic with the expected text has its primary span in the '
+                       'program, no macro panic / ICE, and the twin differing only in the offending construct compiles.',
+        'assumptions': ['kinds outside the enumerated matrix are not decided', 'message quality beyond the fragment is not judged'],
+        'rule_text': 'one instance = one witness crate (kind x variant x macro) with its compiling twin; the matrix of the tier is enumerated completely',
+        'technique': 'static: compile-fail witnesses with compiling twins, decided by rustc (stable) type checking / macro expansion only',
+    },
     'C05': {
         'run': run_C05, 'level': 'other',
         'explanation': 'G1 on every append site of every generated program (corpus + programs shipped in /repo), serial and parallel, plain and '
